@@ -189,6 +189,31 @@ def c18_task(n_targets):
                 ref = outs
             elif outs != ref and None not in outs:
                 v.append(("serialisation-changes-output", "serialisation %s (%d bytes) changes API output" % (name, len(text))))
+        # the same value after the environment changed under it (every serialisation above has been
+        # accepted once by now): a target directory loses its files, then disappears. Whatever each API
+        # answers now - acceptance or rejection - must again be the same for every serialisation.
+        import shutil
+        victim = val["targets"][-1]["path"]
+        for env_name in ("a target directory emptied", "a target directory removed"):
+            d = r.path(victim)
+            if env_name.endswith("emptied"):
+                shutil.rmtree(d, ignore_errors=True)
+                os.makedirs(d)
+            else:
+                shutil.rmtree(d, ignore_errors=True)
+            ref2 = None
+            subset = [sers[-1], sers[0], sers[1], sers[2], sers[8], sers[-2]]
+            for name, text in subset:
+                r.write("Monorail.json", text)
+                outs = []
+                for api, argv in (("config show", ["config", "show"]), ("analyze", ["analyze", "--target-groups"]), ("target show", ["target", "show", "-g"])):
+                    res = r.mr(*argv)
+                    judged += 1
+                    outs.append((res.code, strip_ts(res.json()) if res.code == 0 else strip_ts(res.err_json())))
+                if ref2 is None:
+                    ref2 = (name, outs)
+                elif outs != ref2[1]:
+                    v.append(("serialisation-changes-acceptance", "after %s: serialisation %s gives %s, serialisation %s gives %s" % (env_name, ref2[0], [o[0] for o in ref2[1]], name, [o[0] for o in outs])))
         return {"judged": judged, "v": [(sig, d, {"cli_c18": n_targets}) for sig, d in v]}
     except common.EngineError as e:
         return {"engine_error": str(e)}
@@ -257,7 +282,7 @@ def c08_task(arg):
         if listener:
             # a `log tail` listener whose filters select (some of) the streams is attached for the whole
             # run: what is stored must still be exactly what was written
-            import socket, subprocess, time
+            import subprocess, time
             lf = open(os.path.join(s.dir, "tail.out"), "wb")
             lis = subprocess.Popen([common.MONORAIL, "log", "tail"] + listener, cwd=r.dir, env=s.env(), stdout=lf,
                                    stderr=subprocess.STDOUT, start_new_session=True)
@@ -265,15 +290,7 @@ def c08_task(arg):
             lf.close()
             deadline = time.time() + 10
             while True:
-                k = socket.socket()
-                try:
-                    k.bind(("127.0.0.1", r.log_port))
-                    bound = False
-                except OSError:
-                    bound = True
-                finally:
-                    k.close()
-                if bound:
+                if sc.port_listening(r.log_port):
                     break
                 if lis.poll() is not None or time.time() > deadline:
                     return {"engine_error": "log tail did not start for the C08 slice"}
